@@ -2152,8 +2152,9 @@ fn directed_wide(cx: &mut Ctx, sz: &WideSizes, thorough: bool) {
         // later record boundary
         let mut cuts: Vec<usize> = vec![file.len()];
         let mut prev = 0usize;
-        for r in &w.book.recs {
-            if r.plen >= 4096 {
+        let last_long = w.book.recs.iter().rposition(|r| r.plen >= 4096);
+        for (ri, r) in w.book.recs.iter().enumerate() {
+            if r.plen >= 4096 && (si == 0 || thorough || Some(ri) == last_long) {
                 let around: Vec<i64> = if si == 0 || thorough {
                     vec![prev as i64 - 1, prev as i64, prev as i64 + 9, (prev + r.end) as i64 / 2, r.end as i64 - 1, r.end as i64, r.end as i64 + 1]
                 } else {
@@ -2206,9 +2207,10 @@ fn directed_wide(cx: &mut Ctx, sz: &WideSizes, thorough: bool) {
         }
     }
     // the ladder of sizes over the minimal history
-    let mut ladder: Vec<usize> = vec![0, 1, 3, 40, 300, sz.below8k, sz.above8k, sz.below64k, sz.above64k, sz.n100k, sz.above128k];
+    let mut ladder: Vec<usize> = vec![0, 1, 3, 40, 300, sz.below8k, sz.above8k, sz.below64k, sz.above64k, sz.n100k];
     if thorough {
         ladder.push(sz.below32k);
+        ladder.push(sz.above128k);
     }
     ladder.push(sz.above1m);
     if thorough {
